@@ -222,6 +222,49 @@ func c07Units(tier string, seed int64) []Unit {
 			}})
 		}
 	}
+	// a fixed seed fixes the run also when a stale fail file is lying around: run A fails and saves; the bug is "fixed"
+	// (the threshold moves, the stored case now passes); run B with -rapid.seed=s must generate exactly the test cases
+	// that the same seed generates in an empty directory, and a failure it reports must print a seed that reproduces
+	units = append(units, Unit{Name: "C07/fixed-seed-with-a-stale-fail-file", Run: func(c *Ctx) {
+		for _, seedA := range []uint64{3, 1111} {
+			for _, seedB := range []uint64{5, 424242, 1<<63 + 9} {
+				for _, fixedT := range []int16{30000, 2000} { // 30000: run B passes (int16 values rarely reach it in 10 cases); 2000: run B usually fails
+					CleanFailFiles()
+					progA := progThreshold(100)
+					logA := RunCheck(progA, NewEnv(nil, progA.Base), Config{Checks: 30, Seed: seedA, ShrinkMS: -1, Name: "TestC07stale"})
+					if len(logA.Files) == 0 {
+						continue
+					}
+					progB := progThreshold(fixedT)
+					envB := NewEnv(nil, progB.Base)
+					logB := RunCheck(progB, envB, Config{Checks: 10, Seed: seedB, ShrinkMS: -1, NoFailFile: true, Name: "TestC07stale"})
+					CleanFailFiles()
+					envC := NewEnv(nil, progB.Base)
+					logC := RunCheck(progB, envC, Config{Checks: 10, Seed: seedB, ShrinkMS: -1, NoFailFile: true, Name: "TestC07stale"})
+					c.R.Evals += 3
+					c.R.States++
+					c.R.Transitions += int64(len(envB.Invs) + len(envC.Invs))
+					draws := func(e *Env) (out []string) {
+						for _, inv := range e.Invs {
+							out = append(out, inv.Draws)
+						}
+						return
+					}
+					b, cc := draws(envB), draws(envC)
+					if len(b) > 0 {
+						b = b[1:] // the replay of the stored case comes first
+					}
+					vB, vC := logB.Verdict(), logC.Verdict()
+					c.Outcome(fmt.Sprintf("stale file: B=%s C=%s cases=%d", vB.Class, vC.Class, len(cc)), true)
+					if strings.Join(b, ";") != strings.Join(cc, ";") || vB.Class != vC.Class || firstLine(vB.ErrText) != firstLine(vC.ErrText) {
+						c.Violate(Violation{Sig: "C07 fixed-seed-run-differs-with-a-stale-fail-file",
+							Detail: fmt.Sprintf("-rapid.seed=%d with a stale fail file (of seed %d) in the directory: %s %q, test cases %v\nthe same seed in an empty directory: %s %q, test cases %v", seedB, seedA, vB.Class, firstLine(vB.ErrText), b, vC.Class, firstLine(vC.ErrText), cc),
+							Replay: map[string]any{"engine": "lazyprop", "seedA": seedA, "seedB": seedB, "threshold": fixedT}})
+					}
+				}
+			}
+		}
+	}})
 	return units
 }
 
@@ -283,4 +326,11 @@ func init() {
 		Units:       c07Units,
 		Budget:      map[string]time.Duration{"quick": 50 * time.Second, "thorough": 15 * time.Minute},
 	})
+}
+
+func firstLine(t string) string {
+	if i := strings.Index(t, "\n"); i >= 0 {
+		return t[:i]
+	}
+	return t
 }
